@@ -163,6 +163,21 @@ package parser
 //@ at call BlockSyntax #1 assert tagsOnlyOutsideCommentAndRaw: !inComment && !inRaw
 //@ at call append #1 before assert rawVerbatim: inRaw && !inComment && arg1[0] == tok.Source && rawTag != nil && box(rawTag, *parser.ASTRaw) == opened
 //@ at call append #4: opened = arg1[0]
+// Tree shape: ap always designates the body of the innermost open block - its current clause if
+// one was opened (ghost cl), else the block's own body, else the root - and closing a block
+// restores exactly the append point that was current when the block was opened (ghost conts).
+//@ ghost cl *parser.ASTBlock = nil
+//@ ghost conts (Array Int Int) = const 0
+//@ ghost cls (Array Int Int) = const 0
+//@ at call push #1 before: conts[len(stack)] = ap
+//@ at call push #1 before: cls[len(stack)] = cl
+//@ at call push #1: cl = nil
+//@ at call append #5: cl = arg1[0]
+//@ at call pop #1 before: cl = cls[len(stack)-1]
+//@ at call pop #1 after assert restored: ap == conts[len(stack)]
+//@ loop 1 invariant where: ap == ite(cl != nil, addr(cl.Body), ite(bn != nil, addr(bn.Body), addr(root.Children))) && (cl != nil ==> bn != nil)
+//@ loop 1 invariant saved: forall(k, 0, len(stack), stack[k].ap == conts[k])
+//@ loop 1 invariant levels: forall(k, 0, len(stack), conts[k] == ite(cls[k] != 0, addr(cls[k], parser.ASTBlock, Body), ite(stack[k].node != nil, addr(stack[k].node.Body), addr(root.Children))) && (cls[k] != 0 ==> stack[k].node != nil))
 //@ loop 1 invariant depth: (bn == nil) == (len(stack) == 0) && (sd == nil) == (len(stack) == 0)
 //@ loop 1 invariant frames: forall(k, 0, len(stack), (stack[k].node == nil) == (k == 0) && (stack[k].syntax == nil) == (k == 0))
 //@ loop 1 invariant rawOpen: inRaw ==> rawTag != nil && box(rawTag, *parser.ASTRaw) == opened
